@@ -494,6 +494,10 @@ fn canary_key(pfx: &str) -> Vec<u8> {
     format!("{}-canary", pfx).into_bytes()
 }
 
+fn canary2_key(pfx: &str) -> Vec<u8> {
+    format!("{}-canary2", pfx).into_bytes()
+}
+
 fn big_value(pfx: &str) -> Vec<u8> {
     let mut v = vec![b'y'; 2500];
     v.extend(wire::store(op::SET, &canary_key(pfx), b"from-a-dead-connection", 0, 0, 0x0dead, 0).encode());
@@ -541,6 +545,10 @@ fn build_stream(pfx: &str, variant: u64) -> (Vec<Req>, Vec<u8>, Vec<u8>) {
         // behind that must die with the connection
         Req { frame: wire::store(op::SET, &k(10), &big_value(pfx), 0, 0, 10, 0), mark: Mark::SetKey(k(10)), loud: true },
         Req { frame: wire::concat(op::APPENDQ, &log, b"f", 11, 0), mark: Mark::Append(b'f'), loud: false },
+        // a header-only command whose header announces a body (what a corrupted length byte produces): the body
+        // belongs to that request - here it spells a quiet set of a second canary key - and is never executed
+        Req { frame: wire::req(op::NOOP, &[], &[], &wire::store(op::SETQ, &canary2_key(pfx), b"from-a-noop-body", 0, 0, 0x0dead, 0).encode(), 12, 0), mark: Mark::None, loud: true },
+        Req { frame: wire::concat(op::APPEND, &log, b"g", 13, 0), mark: Mark::Append(b'g'), loud: true },
     ];
     // variants reorder / drop a few so that several streams are covered
     match variant % 4 {
@@ -695,7 +703,29 @@ pub fn run_c18(ctx: &Ctx) -> i32 {
                     // the FIN can be in the server's socket queue together when it first looks
                     let immediate = matches!(fault, Fault::Close | Fault::HalfClose) && c % 2 == 1;
                     if !sent.is_empty() {
-                        if immediate {
+                        // when the oversized request and something behind it are sent, a third of the scenarios
+                        // deliver its body in three pieces, so that the server's discard loop needs several
+                        // reads and the last of them arrives together with the requests that follow
+                        let over_idx = reqs.iter().position(|r| r.frame.body.len() > 8192);
+                        let presplit = match over_idx {
+                            Some(j) if c % 3 == 0 && sent.len() > ends[j] + 10 && invalid_at.map(|x| x > j).unwrap_or(true) => {
+                                let so = if j == 0 { 0 } else { ends[j - 1] };
+                                Some((so + 24 + 1500, so + 24 + 4500))
+                            }
+                            _ => None,
+                        };
+                        if let Some((a, b)) = presplit {
+                            f.send_chunk(&sent[..a]);
+                            f.send_chunk(&sent[a..b]);
+                            if immediate {
+                                use std::io::Write;
+                                let _ = f.s.write_all(&sent[b..]);
+                                f.sent += (sent.len() - b) as u64;
+                            } else {
+                                f.send_chunk(&sent[b..]);
+                            }
+                            *local.entry("scenarios_with_the_oversized_body_in_three_pieces".into()).or_insert(0) += 1;
+                        } else if immediate {
                             use std::io::Write;
                             let _ = f.s.write_all(&sent);
                             f.sent += sent.len() as u64;
@@ -820,6 +850,9 @@ pub fn run_c18(ctx: &Ctx) -> i32 {
                     // bytes inside a request body never become requests, on this connection or a later one
                     if ask(&mut obs, &wire::get(op::GET, &canary_key(&pfx), 63)).map(|r| r.status == st::OK).unwrap_or(false) {
                         viols.push(Viol::new(&["C18", "C09"], "body-bytes-executed", format!("{:?} at offset {}: the canary request embedded in the big value's body was executed", fault, off)));
+                    }
+                    if ask(&mut obs, &wire::get(op::GET, &canary2_key(&pfx), 64)).map(|r| r.status == st::OK).unwrap_or(false) {
+                        viols.push(Viol::new(&["C18", "C09"], "body-bytes-executed", format!("{:?} at offset {}: the request spelled by the body of the noop was executed", fault, off)));
                     }
                     // responses on the faulty connection where they can be read reliably
                     if viols.is_empty() && matches!(fault, Fault::HalfClose | Fault::Silence | Fault::CorruptMagic | Fault::CorruptDataType | Fault::Garbage) && faulty_end != End::Reset {
